@@ -36,6 +36,7 @@ plus a few timing cases on adversarial families (long runs of one character).
      non-ASCII characters of a case (\\d, \\w, str.upper) are passed to the model as its parameter.
 """
 import re
+import zlib
 import time
 
 from sexp import Sym, dumps
@@ -52,7 +53,9 @@ ASSUMPTIONS = [
     'the exception discipline and the running time are runtime facts: they are decided by the direct predicate on the '
     'implementation, the Lean theorems are about the loader as a state machine',
     "uuid texts whose 32 significant characters contain characters that only Python's int(x, 16) accepts (underscore, "
-    'blanks, sign, 0x, non-ASCII digits) and numerals of more than 4000 digits are outside the correspondence (D still applies); '
+    'blanks, sign, 0x, non-ASCII digits), numerals of more than 4000 digits and texts with lone surrogate code points (2 % of the '
+    "texts get one in a comment, in a string literal or between the tokens; Lean's Char is a unicode scalar value) are outside the "
+    "correspondence (D still applies: input() accepts or raises ParsingException, nothing else); "
     'texts with __x__ identifiers are INSIDE (rejected with MetaModelException at build since 7fb506e)',
 ]
 CHUNK = 1500
@@ -443,8 +446,45 @@ def g_family(rng):
     return rng.choice(['\n', ' ']).join(stmts)
 
 
+SURROGATES = ['\ud800', '\udbff', '\udc00', '\udce9', '\udfff']       # lone ones, e.g. bytes read with errors='surrogateescape'
+
+
+def with_surrogate(rng, text):
+    """a LONE surrogate code point put into a comment, into a string literal or between the tokens of `text`: python strings
+    hold them (a Latin-1 file read with errors='surrogateescape'), the lexer treats them like any other character that is
+    neither a word character nor blank. Lean's Char is a unicode scalar value, so these texts are checked by D only."""
+    sur = rng.choice(SURROGATES) * rng.choice([1, 1, 1, 2])
+    toks = split_text(text)
+    where = rng.choice(['comment', 'comment', 'string', 'string', 'stray'])
+    if where == 'string':
+        qs = [k for k, t in enumerate(toks) if len(t) >= 2 and t[0] == "'" and t[-1] == "'"]
+        if qs:
+            k = rng.choice(qs)
+            cut = rng.randint(1, len(toks[k]) - 1)
+            if toks[k][cut - 1:cut + 1] == "''" and cut > 1 and cut < len(toks[k]) - 1:
+                cut -= 1                            # not between the two quotes of an escaped quote
+            toks[k] = toks[k][:cut] + sur + toks[k][cut:]
+            return ''.join(toks)
+        where = 'comment'
+    gaps = [k for k, t in enumerate(toks) if not t.strip()] + [len(toks)]
+    k = rng.choice(gaps) if where == 'comment' or rng.random() < 0.5 else rng.randint(0, len(toks))
+    if where == 'comment':
+        toks.insert(k, rng.choice([' -- caf%s\n', '--%s\n', '\n-- %s x\n']) % sur)
+    else:
+        toks.insert(k, sur)
+    return ''.join(toks)
+
+
 def g_text(rng, env, stream):
-    """(text, expected-to-be-valid?)"""
+    text = g_text0(rng, env, stream)
+    # a PRNG of its own: the other cases stay what they were
+    srng = rng.fork('surrogate', len(text), zlib.crc32(text.encode('utf-8', 'surrogatepass')))
+    if srng.random() < 0.02:
+        return with_surrogate(srng, text)
+    return text
+
+
+def g_text0(rng, env, stream):
     if stream == 'family':
         return g_family(rng)
     if stream == 'fuzz':
